@@ -451,10 +451,20 @@ class RoundGen:
             if st.get("unsigned") and v is not None:
                 v = abs(v)
             st["value"] = v
+        if rng.random() < cfg.get("p_noise", 0):
+            st["comment"] = rng.choice(["note", "see docs", "unit: cm", "= 5", "a b c"])
         if not self.emit(st) or self.stopped:
             return
         path = ".".join(chain + [name])
         self.meta[path] = {"shape": shape, "family": fam}
+        if rng.random() < cfg.get("p_noise", 0):
+            # annotations belong to the node but carry no value or constraint
+            if rng.random() < 0.5:
+                self.emit({"k": "tags", "indent": indent + 2,
+                           "tags": rng.sample(["x", "y", "sim", "io"], 2)})
+            else:
+                self.emit({"k": "description", "indent": indent + 2,
+                           "text": rng.choice(["width of the box", "a flag", "see manual"])})
         # properties directly after the new node
         if cfg["constraints"] and not shape and (declare or st["value"] is not None):
             self.s_properties(path, indent + 2)
@@ -662,7 +672,11 @@ class RoundGen:
             self.fault_label = "constant"
         st["value"] = v
         st["unit"] = unit
+        if rng.random() < cfg.get("p_noise", 0):
+            st["comment"] = rng.choice(["changed", "was 3", "TODO", "x = 1"])
         self.emit(st)
+        if rng.random() < cfg.get("p_noise", 0) * 0.5 and not self.stopped:
+            self.emit({"k": "blank"})
 
     def s_unit(self):
         rng = self.rng
@@ -1034,6 +1048,7 @@ class DipStoreMachine(Machine):
             "constraints": False, "p_condition": 0, "p_options": 0, "p_format": 0,
             "p_boundary": rng.choice([0.0, 0.2, 0.5]),
             "p_palette": rng.choice([0.0, 0.3, 0.6]),
+            "p_noise": rng.choice([0.0, 0.0, 0.15, 0.3]),
             "nonnumeric_conditions": rng.random() < 0.5,
             "refs": False, "files": False, "p_str_slice": rng.choice([0.0, 0.3]),
             "io_faults": False, "callbacks": False,
